@@ -113,6 +113,30 @@ func (e *Enc) eval(sc *Scope, x CExpr, hint types.Type) Val {
 				panic(unsupported("deref of non-pointer in contract: " + x.String()))
 			}
 			return e.loadAt(sc.st, v, pt.Elem())
+		case "&":
+			// &name: the address of an address-taken local variable of the function under contract
+			if id, ok := n.X.(*CIdent); ok && sc.fr != nil {
+				var found *ssa.Alloc
+				for _, b := range sc.fr.fn.Blocks {
+					for _, ins := range b.Instrs {
+						if al, isAl := ins.(*ssa.Alloc); isAl && al.Comment == id.Name {
+							if _, defined := sc.fr.vals[al]; defined || sc.fr.lazy {
+								if found == nil || sc.blk == nil || al.Block().Dominates(sc.blk) {
+									found = al
+								}
+							}
+						}
+					}
+				}
+				if found != nil {
+					v := e.get(sc.fr, found)
+					if v.Typ == nil {
+						v.Typ = found.Type()
+					}
+					return v
+				}
+			}
+			panic(unsupported("contract expression " + x.String() + " (& needs an address-taken local)"))
 		}
 	case *CBin:
 		return e.evalBin(sc, n, hint)
